@@ -17,7 +17,10 @@ func VH_C09_lockrules() {
 	a := &vObj{A: 1, S: "s"}
 	b := &vObj{A: 2, S: "s"}
 	vAssert("C09.pre", db.InsertOrUpdate(a) == nil && db.InsertOrUpdate(b) == nil)
-	mk := func() *vObj { return &vObj{A: vInt64("A"), S: "s"} }
+	// values are drawn once, outside the closures: the native twin of
+	// vLockCheck calls the closure repeatedly
+	newA := vInt64("A")
+	mk := func() *vObj { return &vObj{A: newA, S: "s"} }
 	ident := func(u string) *vObj { o := &vObj{}; o.Initialize(u); return o }
 	switch vChoice("entry", 30) {
 	case 0:
